@@ -715,12 +715,23 @@ fn vfs_read(path: &str) -> Result<Vec<u8>, Box<dyn std::error::Error + Send + Sy
 }
 
 pub fn resolve_line(out: &mut impl Write, dirs: &[&str], files: &[(String, Vec<u8>)], tz: &str) {
+    resolve_line_after(out, dirs, files, None, tz)
+}
+
+/// the same with an earlier lookup (`warm`) made through the SAME settings value: the answer and the paths opened
+/// for `tz` must not depend on it
+pub fn resolve_line_after(out: &mut impl Write, dirs: &[&str], files: &[(String, Vec<u8>)], warm: Option<&str>, tz: &str) {
     VFS.with(|v| {
         let mut v = v.borrow_mut();
         v.0 = files.to_vec();
         v.1.clear();
     });
     let settings = TimeZoneSettings::new(dirs, vfs_read);
+    if let Some(w) = warm {
+        let w2 = w.to_string();
+        let _ = std::panic::catch_unwind(std::panic::AssertUnwindSafe(|| settings.parse_posix_tz(&w2).is_ok()));
+        VFS.with(|v| v.borrow_mut().1.clear());
+    }
     let tz2 = tz.to_string();
     let res = std::panic::catch_unwind(std::panic::AssertUnwindSafe(|| match settings.parse_posix_tz(&tz2) {
         Ok(z) => zone_text(&z),
@@ -735,6 +746,9 @@ pub fn resolve_line(out: &mut impl Write, dirs: &[&str], files: &[(String, Vec<u
     line.push_str(&format!(" F {}", files.len()));
     for (p, c) in files {
         line.push_str(&format!(" x{} x{}", hex(p.as_bytes()), hex(c)));
+    }
+    if let Some(w) = warm {
+        line.push_str(&format!(" W x{}", hex(w.as_bytes())));
     }
     line.push_str(&format!(" S x{} => P {}", hex(tz.as_bytes()), paths.len()));
     for p in &paths {
@@ -788,6 +802,15 @@ pub fn resolve(out: &mut impl Write, rng: &mut Rng, thorough: bool) {
                     x /= contents.len();
                 }
                 resolve_line(out, dirs, &files, tz);
+                if dirs.len() >= 2 && si % 3 == 0 {
+                    // an earlier lookup through the same settings that succeeds in a later directory (or fails)
+                    let k = 1 + rng.below(dirs.len() as u64 - 1) as usize;
+                    let mut files2 = files.clone();
+                    if rng.chance(3, 4) {
+                        files2.push((format!("{}/Warm/Zone", dirs[k]), valid_a.clone()));
+                    }
+                    resolve_line_after(out, dirs, &files2, Some(*rng.pick(&["Warm/Zone", ":Warm/Zone"])), tz);
+                }
                 count += 1;
             }
         }
